@@ -22,13 +22,13 @@ TY(n, fl, toks) == [name |-> n, fl |-> fl, toks |-> toks]
 CoreTypes == {
   TY("t-num", {}, <<"number">>),
   TY("t-generic", {"amb"}, <<"A", "<", "B", ">">>),
-  TY("t-fn", {"amb"}, <<"(", "a", ":", "T", ")", "=>", "U">>) }
+  TY("t-fn", {"amb", "s:FA+"}, <<"(", "a", ":", "T", ")", "=>", "U">>) }
 
 RichTypeSeq == <<
   TY("t-array", {"rich"}, <<"T", "[", "]">>),
   TY("t-generic2", {"rich", "amb"}, <<"A", "<", "B", "<", "C", ">", ">">>),
   TY("t-generic3", {"rich", "amb"}, <<"A", "<", "B", "<", "C", "<", "D", ">", ">", ">">>),
-  TY("t-generic-fnarg", {"rich", "amb"}, <<"A", "<", "<", "T", ">", "(", "x", ":", "T", ")", "=>", "T", ">">>),
+  TY("t-generic-fnarg", {"rich", "amb", "s:FA+"}, <<"A", "<", "<", "T", ">", "(", "x", ":", "T", ")", "=>", "T", ">">>),
   TY("t-generic-arr", {"rich", "amb"}, <<"A", "<", "B", ">", "[", "]">>),
   TY("t-generic-obj", {"rich", "amb"}, <<"Array", "<", "{", "a", ":", "T", "}", ">">>),
   TY("t-generic-multi", {"rich", "amb"}, <<"Map", "<", "K", ",", "V", "[", "]", ">">>),
@@ -46,9 +46,9 @@ RichTypeSeq == <<
   TY("t-named-tuple", {"rich"}, <<"[", "a", ":", "A", ",", "b", "?", ":", "B", ",", "...", "rest", ":", "C", "[", "]", "]">>),
   TY("t-cond", {"rich", "amb"}, <<"T", "extends", "U", "?", "X", ":", "Y">>),
   TY("t-cond-nested", {"rich", "amb"}, <<"T", "extends", "U", "?", "X", "extends", "V", "?", "1", ":", "2", ":", "Y">>),
-  TY("t-infer", {"rich", "amb"}, <<"T", "extends", "(", "infer", "U", ")", "[", "]", "?", "U", ":", "never">>),
-  TY("t-infer-ext", {"rich", "amb"}, <<"T", "extends", "[", "infer", "H", "extends", "string", ",", "...", "infer", "R", "]", "?", "H", ":", "never">>),
-  TY("t-infer-fn", {"rich", "amb"}, <<"T", "extends", "(", "...", "a", ":", "any", "[", "]", ")", "=>", "infer", "R", "?", "R", ":", "never">>),
+  TY("t-infer", {"rich", "amb", "s:FA-"}, <<"T", "extends", "(", "infer", "U", ")", "[", "]", "?", "U", ":", "never">>),
+  TY("t-infer-ext", {"rich", "amb", "s:IC+"}, <<"T", "extends", "[", "infer", "H", "extends", "string", ",", "...", "infer", "R", "]", "?", "H", ":", "never">>),
+  TY("t-infer-fn", {"rich", "amb", "s:FA+"}, <<"T", "extends", "(", "...", "a", ":", "any", "[", "]", ")", "=>", "infer", "R", "?", "R", ":", "never">>),
   TY("t-tpl", {"rich", "amb"}, <<"`a${", "T", "}b`">>),
   TY("t-tpl2", {"rich", "amb"}, <<"`${", "A", "}-${", "B", "<", "C", ">", "}`">>),
   TY("t-tpl-plain", {"rich"}, <<"`abc`">>),
@@ -81,29 +81,45 @@ RichTypeSeq == <<
   TY("t-symbol", {"rich"}, <<"symbol">>),
   TY("t-object", {"rich"}, <<"object">>),
   TY("t-this", {"rich"}, <<"this">>),
-  TY("t-paren", {"rich", "amb"}, <<"(", "A", "|", "B", ")", "[", "]">>),
-  TY("t-fn-generic", {"rich", "amb"}, <<"<", "T", ">", "(", "x", ":", "T", ")", "=>", "T">>),
-  TY("t-fn-empty", {"rich", "amb"}, <<"(", ")", "=>", "void">>),
-  TY("t-ctor", {"rich", "amb"}, <<"new", "(", "x", ":", "T", ")", "=>", "U">>),
-  TY("t-abstract-ctor", {"rich", "amb"}, <<"abstract", "new", "(", ")", "=>", "T">>),
-  TY("t-fn-fn", {"rich", "amb"}, <<"(", ")", "=>", "(", ")", "=>", "void">>),
-  TY("t-fn-this", {"rich", "amb"}, <<"(", "this", ":", "T", ",", "a", "?", ":", "U", ",", "...", "r", ":", "V", "[", "]", ")", "=>", "void">>),
-  TY("t-fn-destr", {"rich", "amb"}, <<"(", "{", "a", ",", "b", "}", ":", "T", ",", "[", "c", "]", ":", "U", ")", "=>", "void">>),
-  TY("t-fn-pred", {"rich", "amb"}, <<"(", "x", ":", "unknown", ")", "=>", "x", "is", "T">>),
-  TY("t-fn-asserts", {"rich", "amb"}, <<"(", "x", ":", "unknown", ")", "=>", "asserts", "x", "is", "T">>),
-  TY("t-fn-union-paren", {"rich", "amb"}, <<"(", "(", ")", "=>", "void", ")", "|", "null">>),
+  TY("t-paren", {"rich", "amb", "s:FA-"}, <<"(", "A", "|", "B", ")", "[", "]">>),
+  TY("t-fn-generic", {"rich", "amb", "s:FA+"}, <<"<", "T", ">", "(", "x", ":", "T", ")", "=>", "T">>),
+  TY("t-fn-empty", {"rich", "amb", "s:FA+"}, <<"(", ")", "=>", "void">>),
+  TY("t-ctor", {"rich", "amb", "s:FA+"}, <<"new", "(", "x", ":", "T", ")", "=>", "U">>),
+  TY("t-abstract-ctor", {"rich", "amb", "s:FA+"}, <<"abstract", "new", "(", ")", "=>", "T">>),
+  TY("t-fn-fn", {"rich", "amb", "s:FA+"}, <<"(", ")", "=>", "(", ")", "=>", "void">>),
+  TY("t-fn-this", {"rich", "amb", "s:FA+"}, <<"(", "this", ":", "T", ",", "a", "?", ":", "U", ",", "...", "r", ":", "V", "[", "]", ")", "=>", "void">>),
+  TY("t-fn-destr", {"rich", "amb", "s:FA+"}, <<"(", "{", "a", ",", "b", "}", ":", "T", ",", "[", "c", "]", ":", "U", ")", "=>", "void">>),
+  TY("t-fn-pred", {"rich", "amb", "s:FA+"}, <<"(", "x", ":", "unknown", ")", "=>", "x", "is", "T">>),
+  TY("t-fn-asserts", {"rich", "amb", "s:FA+"}, <<"(", "x", ":", "unknown", ")", "=>", "asserts", "x", "is", "T">>),
+  TY("t-fn-union-paren", {"rich", "amb", "s:FA-", "s:FA+", "n:FA->FA+"}, <<"(", "(", ")", "=>", "void", ")", "|", "null">>),
   TY("t-readonly-arr", {"rich"}, <<"readonly", "T", "[", "]">>),
   TY("t-index", {"rich"}, <<"T", "[", "'k'", "]">>),
   TY("t-index-num", {"rich"}, <<"T", "[", "number", "]", "[", "]">>),
   TY("t-unique", {"rich"}, <<"unique", "symbol">>),
   TY("t-generic-typeof", {"rich", "amb"}, <<"A", "<", "typeof", "x", ">">>),
-  TY("t-generic-lit", {"rich", "amb"}, <<"A", "<", "'a'", "|", "'b'", ",", "1", ">">>) >>
+  TY("t-generic-lit", {"rich", "amb"}, <<"A", "<", "'a'", "|", "'b'", ",", "1", ">">>),
+  (* a speculative type position nested inside another one ("n:OUTER>INNER") *)
+  TY("t-fn-fnarg", {"rich", "amb", "s:FA+", "n:FA+>FA+"}, <<"(", "a", ":", "(", "b", ":", "T", ")", "=>", "U", ")", "=>", "V">>),
+  TY("t-fn-parenarg", {"rich", "amb", "s:FA+", "s:FA-", "n:FA+>FA-"}, <<"(", "a", ":", "(", "T", "|", "U", ")", "[", "]", ")", "=>", "V">>),
+  TY("t-paren-fn", {"rich", "amb", "s:FA-", "s:FA+", "n:FA->FA+"}, <<"(", "(", "a", ":", "T", ")", "=>", "U", ")", "[", "]">>),
+  TY("t-paren-paren", {"rich", "amb", "s:FA-", "n:FA->FA-"}, <<"(", "(", "A", "|", "B", ")", "[", "]", "|", "C", ")", "[", "]">>),
+  TY("t-fn-infer", {"rich", "amb", "s:FA+", "s:IC+", "n:FA+>IC+"}, <<"T", "extends", "(", "a", ":", "infer", "U", "extends", "string", ")", "=>", "void", "?", "U", ":", "never">>),
+  TY("t-paren-infer-cond", {"rich", "amb", "s:FA-", "s:IC-", "n:FA->IC-"}, <<"T", "extends", "(", "infer", "U", "extends", "string", "?", "1", ":", "2", ")", "?", "3", ":", "4">>),
+  TY("t-infer-ext-fn", {"rich", "amb", "s:IC+", "s:FA+", "n:IC+>FA+"}, <<"T", "extends", "[", "infer", "U", "extends", "(", "a", ":", "T", ")", "=>", "V", "]", "?", "U", ":", "never">>),
+  TY("t-infer-ext-infer", {"rich", "amb", "s:IC+", "s:FA-", "n:IC+>IC+", "n:IC+>FA-"}, <<"T", "extends", "[", "infer", "U", "extends", "(", "X", "extends", "[", "infer", "W", "extends", "string", "]", "?", "1", ":", "2", ")", "]", "?", "U", ":", "never">>),
+  TY("t-infer-cond-fn", {"rich", "amb", "s:FA-", "s:IC-", "s:FA+", "n:IC->FA+"}, <<"T", "extends", "(", "infer", "U", "extends", "(", "a", ":", "T", ")", "=>", "V", "?", "1", ":", "2", ")", "?", "3", ":", "4">>),
+  TY("t-infer-cond-infer", {"rich", "amb", "s:FA-", "s:IC-", "n:IC->IC-", "n:IC->FA-"}, <<"T", "extends", "(", "infer", "U", "extends", "(", "infer", "W", "extends", "string", "?", "1", ":", "2", ")", "?", "3", ":", "4", ")", "?", "5", ":", "6">>) >>
 
 (* the quick tier takes every Stride-th rich type form, starting at Phase (chosen from the seed) *)
 RichTypes == {RichTypeSeq[i] : i \in {j \in 1..Len(RichTypeSeq) : j % Stride = Phase % Stride}}
 AllTypes == CoreTypes \cup RichTypes
 EveryType == CoreTypes \cup {RichTypeSeq[i] : i \in 1..Len(RichTypeSeq)}
 TypeByName(n) == CHOOSE t \in EveryType : t.name = n
+(* labels of speculative type positions (see TsErase, family "nest") *)
+SLabels == {"s:FA+", "s:FA-", "s:IC+", "s:IC-"}
+NLabels == {"n:FA+>FA+", "n:FA+>FA-", "n:FA->FA+", "n:FA->FA-", "n:FA+>IC+", "n:FA->IC-", "n:IC+>FA+", "n:IC+>FA-", "n:IC+>IC+", "n:IC->FA+", "n:IC->FA-", "n:IC->IC-"}
+NestTypes == {t \in EveryType : t.fl \cap NLabels # {}}
+LabelTypes == {t \in EveryType : t.name \in {"t-paren", "t-infer-ext", "t-paren-infer-cond"}}
 
 (* return-position only: type predicates (the parameter is named a) *)
 PredTypes == {
@@ -159,7 +175,9 @@ ClassTypeParamLists == TypeParamLists \cup {
 
 TypeArgTypes == {t \in AllTypes : t.name \in {"t-num", "t-generic", "t-generic2", "t-generic3", "t-generic-fnarg", "t-fn", "t-fn-empty", "t-fn-generic", "t-obj", "t-array",
                                              "t-typeof", "t-generic-lit", "t-lit-num", "t-qualified", "t-import", "t-cond", "t-tpl", "t-tuple", "t-union", "t-lit-neg",
-                                             "t-mapped", "t-ctor", "t-keyof", "t-this", "t-paren", "t-generic-multi", "t-obj-empty"}}
+                                             "t-mapped", "t-ctor", "t-keyof", "t-this", "t-paren", "t-generic-multi", "t-obj-empty",
+                                             "t-infer-ext", "t-fn-fnarg", "t-fn-parenarg", "t-paren-fn", "t-paren-paren", "t-fn-infer", "t-paren-infer-cond",
+                                             "t-infer-ext-fn", "t-infer-ext-infer", "t-infer-cond-fn", "t-infer-cond-infer"}}
 TypeArgLists == Wrapped("ta", <<"<">>, TypeArgTypes, <<">">>, {"amb"})
                 \cup {F(<<"ta-2">>, {"amb", "rich"}, <<"<", "A", ",", "B", ">">>),
                       F(<<"ta-2-generic">>, {"amb", "rich"}, <<"<", "A", "<", "B", ">", ",", "C", "<", "D", ">", ">">>)}
